@@ -163,6 +163,7 @@ def errName : Err → String
   | .valueError => "ValueError" | .typeError => "TypeError" | .overflowError => "OverflowError"
   | .notImplemented => "NotImplementedError" | .zeroDivision => "ZeroDivisionError"
   | .indexError => "IndexError" | .assertion => "AssertionError" | .unbound => "Unbound"
+  | .outOfFuel => "OutOfFuel"
 
 def showRes : Except Err Res → String
   | .error e => s!"err {errName e}"
